@@ -6,7 +6,7 @@
 From Coq Require Import ZArith NArith List Bool Lia Permutation.
 From Coq Require Import Floats.SpecFloat.
 From RlibV Require Import Common.Batch C14.Model C14.Corr C14.Spec.
-From RlibV Require Import C14.ProofsInt C14.ProofsLcg C14.ProofsShuffle C14.ProofsFloat C14.ProofsValid.
+From RlibV Require Import C14.ProofsInt C14.ProofsLcg C14.ProofsShuffle C14.ProofsFloat C14.ProofsValid C14.ProofsMix.
 Import ListNotations.
 Open Scope Z_scope.
 
@@ -263,11 +263,79 @@ Proof.
   apply is_perm_of_perm. apply Permutation_sym. eapply shuffle_permutation. exact E.
 Qed.
 
+(** * histories of mixed operations on one generator *)
+Lemma spec_u64_out a c st : spec_u64 (snd (gnext_raw a c st)) = true.
+Proof.
+  pose proof (gnext_raw_range a c st) as H. unfold spec_u64.
+  apply andb_true_iff. split; [apply Z.leb_le|apply Z.ltb_lt]; lia.
+Qed.
+
+(** whatever the model computes for one valid operation satisfies its specification *)
+Lemma mix_step_spec a c o st :
+  mop_ok o = true -> spec_mop o (option_map snd (mix_step a c o st)) = true.
+Proof.
+  intros Hok. destruct o as [sg w f|s e| |n|n|]; cbn [mix_step mop_ok] in *.
+  - apply andb_true_iff in Hok as [Hw Hf].
+    assert (Hv : valid_width w).
+    { unfold width_ok in Hw. unfold valid_width. rewrite andb_true_iff, !Z.leb_le in Hw. tauto. }
+    assert (Hfv : form_valid sg w f).
+    { destruct f as [s e|s e|e|e|]; cbn [form_ok form_valid] in *; try rewrite andb_true_iff in Hf; tauto. }
+    unfold next, gnext. destruct (gnext_raw a c st) as [st1 raw].
+    pose proof (gen_spec_int sg w f raw Hv Hfv) as Hg.
+    destruct (gen sg w f raw) as [x|]; cbn [option_map snd spec_mop]; exact Hg.
+  - destruct (gnext_raw a c st) as [st1 raw].
+    destruct (SFltb (sf_of_bits s) (sf_of_bits e)) eqn:Hlt.
+    + destruct (float_in_range (sf_of_bits s) (sf_of_bits e) raw Hlt) as [y [Hy [H1 H2]]].
+      rewrite Hy. cbn [option_map snd spec_mop]. cbv zeta.
+      rewrite bits_roundtrip by (eapply float_range_valid; [apply sf_of_bits_valid|apply sf_of_bits_valid|exact Hy]).
+      now rewrite Hlt, H1, H2.
+    + rewrite (float_empty_panics _ _ raw Hlt). cbn [option_map spec_mop]. now rewrite Hlt.
+  - pose proof (spec_u64_out a c st) as H. destruct (gnext_raw a c st) as [st1 r].
+    cbn [option_map snd spec_mop] in *. exact H.
+  - pose proof (spec_u64_out a c (lcg_jump a c n st)) as H.
+    destruct (gnext_raw a c (lcg_jump a c n st)) as [st1 r].
+    cbn [option_map snd spec_mop] in *. exact H.
+  - apply Z.leb_le in Hok. fold (zseq n).
+    destruct (shuffle (gnext a c) st (zseq n)) as [[st1 l]|] eqn:E; cbn [option_map snd spec_mop].
+    + apply is_perm_of_perm. apply Permutation_sym. eapply shuffle_permutation. exact E.
+    + exfalso. revert E. apply shuffle_total; [apply gnext_total|].
+      unfold zseq. rewrite map_length, seq_length. lia.
+  - cbn [option_map snd spec_mop]. apply spec_u64_out.
+Qed.
+
+Lemma mix_run_spec a c ops : forall st,
+  forallb mop_ok ops = true -> spec_mix ops (mix_run a c ops st) = true.
+Proof.
+  induction ops as [|o ops IH]; intros st Hok; cbn [mix_run spec_mix forallb] in *; [reflexivity|].
+  apply andb_true_iff in Hok as [Ho Hops].
+  pose proof (mix_step_spec a c o st Ho) as Hs.
+  destruct (mix_step a c o st) as [[st1 l]|]; cbn [option_map snd] in Hs; cbn [spec_mix].
+  - rewrite Hs. cbn [andb]. now apply IH.
+  - exact Hs.
+Qed.
+
+Lemma leqb_olzeqb_eq (x y : list (option (list Z))) : leqb (oeqb lzeqb) x y = true -> x = y.
+Proof.
+  revert y. induction x as [|a x IH]; intros [|b y] H; cbn [leqb] in H; try discriminate; [reflexivity|].
+  apply andb_true_iff in H as [H1 H2]. f_equal; [|now apply IH].
+  destruct a as [u|], b as [v|]; cbn [oeqb] in H1; try discriminate; [|reflexivity].
+  apply lzeqb_eq in H1. now subst.
+Qed.
+
+Lemma corr_mix a c seed ops obs :
+  in_scope (CMix a c seed ops obs) = true -> model_check (CMix a c seed ops obs) = true ->
+  spec_check (CMix a c seed ops obs) = true.
+Proof.
+  cbn [in_scope model_check spec_check]. intros Hs Hm.
+  apply andb_true_iff in Hs as [Hok Hd]. apply leqb_olzeqb_eq in Hm. subst obs.
+  rewrite Hd, andb_true_r. now apply mix_run_spec.
+Qed.
+
 (** * all cases *)
 Theorem model_check_spec_check c :
   in_scope c = true -> model_check c = true -> spec_check c = true.
 Proof.
-  destruct c as [sg w f obs|sg w f obs|s e raw r|seed obs|sg w f seed n r|seed k a b|rs v r|n obs|n obs].
+  destruct c as [sg w f obs|sg w f obs|s e raw r|seed obs|sg w f seed n r|seed k a b|rs v r|n obs|n obs|a c seed ops obs].
   - apply corr_int.
   - apply corr_reach.
   - intros _. apply corr_float.
@@ -277,4 +345,5 @@ Proof.
   - apply corr_shufs.
   - intros _. cbn [model_check spec_check]. apply shufr_perms.
   - cbn [in_scope model_check spec_check]. intros Hs Hm. now rewrite (shufr_perms n obs Hm), Hs.
+  - apply corr_mix.
 Qed.
